@@ -8,6 +8,7 @@ LEVEL = 'proof'
 def run(rep):
     control.body_deductive(rep)
     control.parse_deductive(rep, control.PARSE_BODY)
+    control.text_deductive(rep)
     control.astvars_deductive(rep)
     q = rep.tier == 'quick'
     fw.standin(rep, 'difftest.py', ['run', 'F2', rep.seed, 6000 if q else 40000, '--max-depth', 4],
